@@ -118,6 +118,30 @@ def check(tier, seed):
         # --- extremal public keys
         for tag, pkb in (('all-00', bytes(plen)), ('all-FF', bytes([0xff]) * plen)):
             add(f"verify {s} pure bytes:{pkb.hex()} {hx(msg)} - {sig.hex()}", f'verify under {tag} public key', True)
+        # --- many honestly generated keys through serialise / derive (a defect that needs one rare stored word - a negative or
+        #     extremal NTT-domain precompute, one key in a few hundred - shows here)
+        for t in range(2000 if thorough else 260):
+            xs = (t * 2654435761 + seed).to_bytes(8, 'little') + bytes(24)
+            add(f"sk_rt {s} gen:{xs.hex()}", 'generated key: serialise private key', False)
+            add(f"pk_rt {s} gen:{xs.hex()}", 'generated key: serialise public key', False)
+            if t % 4 == 0:
+                add(f"derive {s} gen:{xs.hex()}", 'generated key: derive public key', False)
+        # --- every mode x context length x message length on the API (buffers sized from ctx / digest / OID lengths):
+        #     honest signing, and verification of a decodable junk signature (all zero) so the whole pipeline runs
+        zsig = bytes(glen)
+        ctx_lens = (0, 1, 31, 32, 33, 63, 64, 65, 127, 128, 129, 191, 192, 193, 200, 210, 220, 222, 223, 224, 225, 232, 239, 240, 241, 244, 245, 250, 253, 254, 255)
+        for mode in fam.MODES:
+            for ci, cl in enumerate(ctx_lens if (thorough or mode != 'pure') else ctx_lens[::3] + (255,)):
+                cx = bytes((7 * j + cl) % 256 for j in range(cl))
+                for ml in ((0, 1, 135, 136, 137, 1000) if thorough else ((0, 137) if ci % 4 else (1, 136, 1000))):
+                    mg = bytes((j * 3 + 1) % 256 for j in range(ml))
+                    add(f"sign {s} {mode} gen:{xi.hex()} {hx(mg)} {hx(cx)} ok:{'5a' * 32}", f'sign: {mode}, every context length x message length', cl in (224, 255) and ml in (0, 1))
+                    add(f"verify {s} {mode} bytes:{pk.hex()} {hx(mg)} {hx(cx)} {zsig.hex()}", f'verify (decodable junk signature): {mode}, every context length', False)
+        for cl in (256, 257, 300, 511, 512, 65535, 65536, 65537, 70000):
+            cx = bytes(cl)
+            for mode in fam.MODES:
+                add(f"sign {s} {mode} gen:{xi.hex()} {hx(msg)} {hx(cx)} ok:{'5a' * 32}", 'sign: over-long context', False)
+                add(f"verify {s} {mode} bytes:{pk.hex()} {hx(msg)} {hx(cx)} {zsig.hex()}", 'verify: over-long context', False)
         # --- failing generators and long contexts on the signing side
         add(f"sign {s} pure gen:{xi.hex()} {hx(msg)} {'00' * 300} errbefore", 'sign: long ctx', True)
         add(f"sign {s} sha512 gen:{xi.hex()} {hx(msg)} - errafter:{'aa' * 7}", 'hash_sign: failing RNG', True)
